@@ -72,8 +72,16 @@ def main(argv):
         import z3
         from vlib import api
 
-        # real-number float model only (see DESIGN 2/E1)
+        # real-number float model only (see DESIGN 2/E1): every symbolic float is a finite real
+        # (no nan/inf argument classes: 4^k forks), and the real-based model's "cap the verdict at
+        # unknown" marker is dropped, because exact-real arithmetic on finite times IS the stated
+        # claim for the timer properties (float rounding is outside the claim).
         builtinslib._PYTYPE_TO_WRAPPER_TYPE[float] = ((builtinslib.RealBasedSymbolicFloat, 1.0),)
+        os.environ["CROSSHAIR_ONLY_FINITE_FLOATS"] = "1"
+        import warnings
+        warnings.filterwarnings("ignore", category=FutureWarning)
+        from crosshair import statespace as _ss
+        _ss.StateSpace.cap_result_at_unknown = lambda self: None
 
         # Never replace a call by its contract ("short-circuiting"): the wrapper generated below
         # forwards to the harness function, which carries the same PEP-316 docstring; CrossHair
